@@ -304,7 +304,8 @@ func work(w *mon.W) {
 		first := head + line[:cut]
 		second := line[cut:] + "\r\n" + string(data) + "\r\n0\r\n\r\n" + fmt.Sprintf("GET /probe-%d HTTP/1.1\r\nHost: x\r\n\r\n", id)
 		x.st.mu.Lock()
-		x.st.cur, x.st.got, x.st.gotErr, x.st.paths, x.st.done, x.st.hasDone = plan{stopAfter: -1, readSizes: []int{r.Int(7, 100, 4096)}}, nil, nil, nil, nil, false
+		finished := make(chan struct{})
+		x.st.cur, x.st.got, x.st.gotErr, x.st.paths, x.st.done, x.st.hasDone = plan{stopAfter: -1, readSizes: []int{r.Int(7, 100, 4096)}}, nil, nil, nil, finished, false
 		x.st.mu.Unlock()
 		c.Detail = func() interface{} {
 			return map[string]interface{}{"family": "timed-stall", "netpoll": np, "chunk_size_line": line, "silence_after_digits": cut, "planted": plant, "planted_at": at}
@@ -315,8 +316,25 @@ func work(w *mon.W) {
 		if np {
 			w.Count("timed_stall_connections_netpoll", 1)
 		}
-		// let a handler that is still running finish before its record is read
-		time.Sleep(50 * time.Millisecond)
+		// the upload handler's record is read only once that handler has returned (it
+		// closes `finished`); if it never started, or is still reading after a generous
+		// wait on a loaded machine, there is nothing to judge
+		x.st.mu.Lock()
+		entered := false
+		for _, p := range x.st.paths {
+			if p == fmt.Sprintf("POST /body-%d", id) {
+				entered = true
+			}
+		}
+		x.st.mu.Unlock()
+		if entered {
+			select {
+			case <-finished:
+			case <-time.After(20 * time.Second):
+				w.Count("timed_stall_handler_still_running_no_verdict", 1)
+				return
+			}
+		}
 		x.st.mu.Lock()
 		got, gotErr, paths := x.st.got, x.st.gotErr, append([]string{}, x.st.paths...)
 		x.st.mu.Unlock()
@@ -928,17 +946,34 @@ func stallCase(w *mon.W, c *mon.Case, e *route.Engine, st *state) {
 	sc := sconn.New(frags, sconn.Stall)
 	resCh := make(chan *rig.Result, 1)
 	go func() { resCh <- rig.Serve(e, sc, buf, false, 30*time.Second) }()
-	finished := false
+	// The verdict is over logical events, not time: either the handler finishes reading
+	// (done), or a read on the connection starts to wait although every byte of the
+	// request has been delivered (Stalled).  The server's own read for the next request
+	// comes after the handler has returned, i.e. after done is closed; a read that waits
+	// while done is still open is a read for bytes beyond the body.  The timer is only a
+	// watchdog for a machine too loaded to get anywhere: no verdict then.
+	finished, watchdog := false, false
 	select {
 	case <-done:
 		finished = true
-	case <-time.After(5 * time.Second):
+	case <-sc.Stalled():
+		select {
+		case <-done:
+			finished = true
+		default:
+		}
+	case <-time.After(120 * time.Second):
+		watchdog = true
 	}
 	sc.Close()
 	res := <-resCh
 	w.Count("stall_cases", 1)
+	if watchdog {
+		w.Count("stall_cases_watchdog_no_verdict", 1)
+		return
+	}
 	if !finished {
-		c.Violate("read-blocks-beyond-body", "the whole request (%d-byte body, chunked=%v) had been delivered, yet the handler was still blocked in a body read after 5 s: the read waits for bytes beyond the body", L, chunked)
+		c.Violate("read-blocks-beyond-body", "the whole request (%d-byte body, chunked=%v) had been delivered, yet a read on the connection waits for more while the handler is still reading the body: the read waits for bytes beyond the body", L, chunked)
 		return
 	}
 	if res.Panic != nil {
